@@ -33,15 +33,40 @@ unPath_U = z3.Function("unPath", U, U)
 _u = z3.Const("u!ax", U)
 _s = z3.Const("s!ax", z3.StringSort())
 _i = z3.Const("i!ax", z3.IntSort())
+# quantified background axioms, each keyed by the symbol that triggers it: an axiom is
+# added to a query only if that symbol occurs in it (keeps sat answers decidable)
+TRIGGERED_AXIOMS = {
+    "Path": z3.ForAll([_u], unPath_U(Path_U(_u)) == _u, patterns=[Path_U(_u)]),
+    "u_of_str": z3.ForAll([_s], str_U(u_of_str(_s)) == _s, patterns=[u_of_str(_s)]),
+    "u_of_int": z3.ForAll([_i], int_U(u_of_int(_i)) == _i, patterns=[u_of_int(_i)]),
+}
 BACKGROUND = [
-    z3.ForAll([_u], unPath_U(Path_U(_u)) == _u, patterns=[Path_U(_u)]),
-    z3.ForAll([_s], str_U(u_of_str(_s)) == _s, patterns=[u_of_str(_s)]),
-    z3.ForAll([_i], int_U(u_of_int(_i)) == _i, patterns=[u_of_int(_i)]),
     z3.Not(truthy_U(NONE_U)),
     z3.Not(truthy_U(FALSE_U)),
     truthy_U(TRUE_U),
     z3.Distinct(NONE_U, NOTHING_U, TRUE_U, FALSE_U),
 ]
+
+
+def symbols_of(exprs):
+    seen, names = set(), set()
+    stack = [e for e in exprs if is_z3(e)]
+    while stack:
+        t = stack.pop()
+        if t.get_id() in seen:
+            continue
+        seen.add(t.get_id())
+        if z3.is_quantifier(t):
+            stack.append(t.body())
+        elif z3.is_app(t):
+            names.add(t.decl().name())
+            stack.extend(t.children())
+    return names
+
+
+def background_for(exprs):
+    names = symbols_of(exprs)
+    return BACKGROUND + [ax for k, ax in TRIGGERED_AXIOMS.items() if k in names]
 
 
 class Unsupported(Exception):
@@ -116,6 +141,20 @@ class Ref:
 
 
 @dataclass
+class SeqSpec:
+    length: object
+    getter: object
+
+
+@dataclass
+class LazyComp:
+    node: object
+    g: object
+    seq: object
+    env: dict
+
+
+@dataclass
 class HList:
     seq: SeqV
 
@@ -165,6 +204,7 @@ class Ev:
     ret: object = None
     raised: bool = False
     label: str = ""
+    snapshot: dict = field(default_factory=dict)  # explicit attribute writes visible at the call
 
 
 EXC_PARENTS = {
@@ -425,7 +465,7 @@ class Engine:
         if isinstance(kind, tuple) and kind[0] == "Seq":
             n = self.fresh(name + ".len", z3.IntSort())
             self.len_consts.append(n)
-            return ("__seq__", n, self._fresh_indexed(kind[1], name, []))
+            return SeqSpec(n, self._fresh_indexed(kind[1], name, []))
         raise Unsupported(f"kind {kind}")
 
     def _fresh_indexed(self, kind, name, _):
@@ -463,9 +503,9 @@ class Engine:
 
     def materialize(self, st, v):
         """turn fresh_kind results containing sequences into heap lists"""
-        if isinstance(v, tuple) and len(v) == 3 and v[0] == "__seq__":
-            st.pc.append(v[1] >= 0)
-            return self.new_list(st, SeqV(v[1], v[2]))
+        if isinstance(v, SeqSpec):
+            st.pc.append(v.length >= 0)
+            return self.new_list(st, SeqV(v.length, v.getter))
         if isinstance(v, tuple):
             return tuple(self.materialize(st, x) for x in v)
         return v
@@ -473,13 +513,11 @@ class Engine:
     def feasible(self, st, extra=None):
         self.feas.push()
         try:
-            for b in BACKGROUND:
+            exprs = [p for p in st.pc if p is not True] + ([extra] if extra is not None and extra is not True else [])
+            for b in background_for(exprs):
                 self.feas.add(b)
-            for p in st.pc:
-                if p is not True:
-                    self.feas.add(p)
-            if extra is not None and extra is not True:
-                self.feas.add(extra)
+            for p in exprs:
+                self.feas.add(p)
             r = self.feas.check()
             return r != z3.unsat
         finally:
@@ -520,7 +558,7 @@ class Engine:
         raise Unsupported(f"truthiness of {type(v).__name__}")
 
     def oblige(self, st, clause, goal, role="auxiliary", where=""):
-        self.obligations.append(Obligation(clause, role, list(st.pc), goal, "/".join(st.decisions[-12:]), where))
+        self.obligations.append(Obligation(clause, role, list(st.pc), goal, "/".join(st.decisions), where))
 
     def fork(self, st, cond, label):
         """split on a (possibly symbolic) boolean; returns [(st, bool)] feasible sides"""
@@ -1490,7 +1528,7 @@ class Engine:
             if seq.items is not None:
                 out.extend(self._comp_concrete(node, g, s, seq.items))
             else:
-                out.append((s, ("__lazycomp__", node, g, seq, dict(s.env)), None))
+                out.append((s, LazyComp(node, g, seq, dict(s.env)), None))
         return out
 
     def _comp_concrete(self, node, g, st, items):
@@ -1541,7 +1579,7 @@ class Engine:
 
     def comp_elem(self, st, lazy, idx):
         """(cond, value) of a lazy comprehension at symbolic index idx (pure bodies only)"""
-        _, node, g, seq, env = lazy
+        node, g, seq, env = lazy.node, lazy.g, lazy.seq, lazy.env
         s = st.copy()
         s.env = dict(env)
         s.env["__spec__"] = True
@@ -1570,7 +1608,19 @@ class Engine:
         kwnames = [k.arg for k in node.keywords]
         if any(k is None for k in kwnames):
             raise Unsupported("**kwargs in call")
-        for s, fv, e in self.eval(node.func, st):
+        if isinstance(node.func, ast.Attribute):
+            # method call: evaluate the receiver; opaque receivers give a bound method
+            fouts = []
+            for s, o, e in self.eval(node.func.value, st):
+                if e:
+                    fouts.append((s, None, e))
+                elif is_z3(o) and o.sort() == U and fname not in self.c.callees:
+                    fouts.append((s, BoundV(o, node.func.attr, fname), None))
+                else:
+                    fouts.extend(self.getattr_(s, o, node.func.attr, node.func))
+        else:
+            fouts = self.eval(node.func, st)
+        for s, fv, e in fouts:
             if e:
                 out.append((s, None, e))
                 continue
@@ -1650,7 +1700,7 @@ class Engine:
             s_r = st.copy()
             s_r.decisions.append(f"call:{name}:raise")
             exc = ExcV(raises, (), self.fresh("exc", U))
-            s_r.trace.append(Ev(name, args, kwargs, None, True, label))
+            s_r.trace.append(Ev(name, args, kwargs, None, True, label, dict(s_r.fields)))
             out.append((s_r, None, exc))
         s_ok = st
         s_ok.decisions.append(f"call:{name}:ok")
@@ -1660,7 +1710,7 @@ class Engine:
             ret = self.fresh_kind(returns, f"ret.{name}")
         else:
             ret = self.materialize(s_ok, self.fresh_kind(returns, f"ret.{name}"))
-        ev = Ev(name, args, kwargs, ret, False, label)
+        ev = Ev(name, args, kwargs, ret, False, label, dict(s_ok.fields))
         s_ok.trace.append(ev)
         if post is not None:
             post(self, s_ok, ev)
